@@ -12,8 +12,11 @@ EXTENDS LibBytes
 InLE(a, b) ==      \* key(a) <= key(b)
   LET c == LexCmp(Rev(a.hash), Rev(b.hash)) IN
   IF c # 0 THEN c < 0 ELSE LexCmp(a.idx, b.idx) <= 0
+\* the amount is a SIGNED 64-bit number logged as its 8 big-endian bytes: flipping the sign bit makes the unsigned
+\* lexicographic order of the bytes the numeric order (negative amounts first)
+SignedKey(v) == IF Len(v) = 8 THEN <<(v[1] + 128) % 256>> \o SubSeq(v, 2, 8) ELSE v
 OutLE(a, b) ==
-  LET c == LexCmp(a.value, b.value) IN
+  LET c == LexCmp(SignedKey(a.value), SignedKey(b.value)) IN
   IF c # 0 THEN c < 0 ELSE LexCmp(a.script, b.script) <= 0
 Ordered(s, LE(_, _)) == \A k \in 1..(Len(s) - 1) : LE(s[k], s[k + 1])
 
